@@ -131,6 +131,7 @@ class Ctx:
         size = len(json.dumps(cj))
         if rec is None or size < rec["size"]:
             self.stats.found[f.sig] = {"failure": f.to_json(), "case": cj, "size": size,
+                                       "hashseed": int(os.environ.get("PYTHONHASHSEED", "0") or 0),
                                        "campaign": self.campaign.name}
 
 
@@ -310,6 +311,13 @@ def worker_process(prop_mod_name, tier, widx, nworkers, seed, outdir):
         os.rename(op + ".tmp", op)
 
 
+HASHSEEDS = 4
+
+
+def worker_hashseed(w):
+    return w % HASHSEEDS
+
+
 def _camp_workers(camp, nworkers):
     nw = camp.workers or nworkers
     if camp.kind == "hyp":
@@ -368,6 +376,17 @@ def run_property(prop_id, tier, replay=None):
             if c is None or c.execute is None:
                 continue
             n_reg += 1
+            if int(rec.get("hashseed", 0)) != int(os.environ.get("PYTHONHASHSEED", "0") or 0):
+                rc, lines = _replay_subprocess(prop_id, os.path.join(regdir, fn), rec.get("hashseed", 0))
+                for ln in lines:
+                    if ln.startswith("KNOWN-FINDING"):
+                        print(ln)
+                if rc == 1:
+                    reg_fail.append((os.path.join("regress", prop_id, fn),
+                                     Failure("regression", "replay_under_hashseed_%s" % rec.get("hashseed"), {"output": lines[-3:]})))
+                elif rc != 0:
+                    res.errors.append("regression replay %s failed to run: %s" % (fn, lines[-5:]))
+                continue
             if c.setup:
                 c.setup()
             out = c.execute(unjsonify(rec["case"]))
@@ -383,7 +402,6 @@ def run_property(prop_id, tier, replay=None):
     import subprocess
     nw_all = nprocs()
     env = dict(os.environ)
-    env["PYTHONHASHSEED"] = "0"
     env["PYTHONPATH"] = os.pathsep.join([VERIF] + ([os.path.join(VERIF, ".deps")]
                                                   if os.path.isdir(os.path.join(VERIF, ".deps")) else []))
     camps = mod.campaigns(tier)
@@ -392,8 +410,11 @@ def run_property(prop_id, tier, replay=None):
     for w in range(maxw):
         lp = os.path.join(outdir, "worker%d.log" % w)
         lf = open(lp, "w")
+        # workers explore HASHSEEDS different iteration orders of the client's sets (a schedule dimension); a
+        # failure records the value it was found and shrunk under, and its replay runs under the same value
+        wenv = dict(env, PYTHONHASHSEED=str(worker_hashseed(w)))
         p = subprocess.Popen([sys.executable, "-m", "vlib.worker", prop_mod_name, tier, str(w),
-                              str(nw_all), str(seed), outdir], cwd=VERIF, env=env,
+                              str(nw_all), str(seed), outdir], cwd=VERIF, env=wenv,
                              stdout=lf, stderr=subprocess.STDOUT)
         procs.append((p, lp, lf))
     for p, lp, lf in procs:
@@ -453,7 +474,8 @@ def run_property(prop_id, tier, replay=None):
         path = os.path.join(rdir, _sanitise(sig) + ".json")
         with open(os.path.join(VERIF, path), "w") as fh:
             json.dump({"property": prop_id, "campaign": rec["campaign"], "sig": sig,
-                       "failure": rec["failure"], "case": rec["case"], "seed": seed, "tier": tier},
+                       "failure": rec["failure"], "case": rec["case"], "seed": seed, "tier": tier,
+                       "hashseed": rec.get("hashseed", 0)},
                       fh, indent=1, sort_keys=True)
         violations.append((path, sig))
 
@@ -511,9 +533,22 @@ def _write_evidence(mod, prop_id, tier, seed, res, violations, n_reg, wall):
     os.rename(p + ".tmp", p)
 
 
+def _replay_subprocess(prop_id, path, hashseed):
+    import subprocess
+    env = dict(os.environ, VERIF_HASHSEED=str(int(hashseed)))
+    p = subprocess.run([os.path.join(VERIF, "check"), prop_id, "--replay", path], cwd=VERIF, env=env,
+                       stdout=subprocess.PIPE, stderr=subprocess.STDOUT, text=True)
+    return p.returncode, p.stdout.splitlines()
+
+
 def _replay(mod, path, findings):
     with open(path) as fh:
         rec = json.load(fh)
+    hs = int(rec.get("hashseed", 0))
+    if hs != int(os.environ.get("PYTHONHASHSEED", "0") or 0):
+        rc, lines = _replay_subprocess(mod.ID, os.path.abspath(path), hs)
+        print("\n".join(lines))
+        return rc
     tier = rec.get("tier", "quick")
     camps = {c.name: c for c in mod.campaigns(tier)}
     c = camps.get(rec.get("campaign"))
